@@ -77,10 +77,11 @@ type TB struct {
 	True  *Term
 	False *Term
 	vars  []*Term
+	varByID map[int]*Term
 }
 
 func NewTB() *TB {
-	tb := &TB{tab: map[termKey]*Term{}}
+	tb := &TB{tab: map[termKey]*Term{}, varByID: map[int]*Term{}}
 	tb.True = tb.mk(OpConst, 0, 1, "", nil, nil, nil)
 	tb.False = tb.mk(OpConst, 0, 0, "", nil, nil, nil)
 	return tb
@@ -115,9 +116,16 @@ func (tb *TB) mk(op Op, w int, val uint64, name string, a, b, c *Term) *Term {
 		}
 	}
 	switch op {
-	case OpMul, OpUDiv, OpURem, OpSDiv, OpSRem:
+	case OpUDiv, OpURem, OpSDiv, OpSRem:
 		if w >= 32 {
 			t.Arith = true
+		}
+	case OpMul:
+		if w >= 32 {
+			small := (a.IsConst() && a.Val < 1024) || (b.IsConst() && b.Val < 1024)
+			if !small {
+				t.Arith = true
+			}
 		}
 	}
 	tb.tab[k] = t
@@ -234,6 +242,7 @@ func (tb *TB) Var(name string, w int) *Term {
 	}
 	t := tb.mk(OpVar, w, 0, name, nil, nil, nil)
 	tb.vars = append(tb.vars, t)
+	tb.varByID[t.ID] = t
 	return t
 }
 
